@@ -131,7 +131,11 @@ def run_isolated(name, tier="quick", ids=None):
     sh(["git", "-C", repo, "checkout", "--detach", sh(["git", "-C", REPO, "rev-parse", "HEAD"])[1].strip()])
     sh(["git", "-C", repo, "checkout", "--", "."])
     sh(["git", "-C", repo, "clean", "-fdq"])
-    sh(["rsync", "-a", "--delete", "--exclude", ".git", "--exclude", "replays", "--exclude", "mutants", "--exclude", "seeded", VERIF + "/", verif + "/"])
+    # the copy holds the COMMITTED state of /verif (so that edits in progress never leak into a run); build outputs are
+    # carried over once and then kept
+    if not os.path.exists(os.path.join(verif, "lean", ".lake")):
+        sh(["rsync", "-a", "--exclude", ".git", "--exclude", "replays", "--exclude", "mutants", "--exclude", "seeded", VERIF + "/", verif + "/"])
+    sh("git -C %s archive HEAD -- . ':!seeded' ':!mutants' | tar -x -C %s" % (VERIF, verif))
     rc, out = sh(["git", "-C", repo, "apply", os.path.join(d, "patch.diff")])
     if rc != 0:
         print("patch does not apply: " + out)
